@@ -17,7 +17,9 @@ Switches == {"skip_tag_packages", "strict_responders", "struct_tags", "principal
 OptionSets == {{}} \cup {{s} : s \in Switches} \cup {Switches}
 
 \* documents: the universes of the other families, and names at the eight name positions
-DocKinds == {"models", "params", "responses", "rich", "nested", "wide"}
+\* streams: operations whose request or response bodies are byte streams (type file / string binary), at
+\* every combination of response positions (2xx, non-2xx, default) - and next to typed JSON responses
+DocKinds == {"models", "params", "responses", "rich", "nested", "wide", "streams"}
 Positions == {"definition", "property", "parameter", "operationId", "tag", "enum", "header", "scheme"}
 \* name classes (fixed menu of representatives, see lib/build_family.py): every class contains a letter
 NameClasses == {"plain", "upper", "digits_first", "spaces", "dashes", "dots", "punct", "nonascii", "keyword_type", "keyword_func", "keyword_range",
